@@ -72,6 +72,12 @@ def _check_leaf(rep, tier, name, r, res, target_shape, target_kind, case, replay
         r_pc = pc
     for cl, g in goals:
         pc = r.pc
+        if rep.is_known(f"E3:{name.split(':')[0]}:{cl}", case):
+            # a recorded finding: decided without registering an obligation (reported as KNOWN-FINDING if it still fails, silently gone if it was repaired)
+            from vlib.smt import prove
+            if prove(pc, g)[0] != "proved":
+                rep.violation(f"E3:{name.split(':')[0]}:{cl}", case, "known")
+            continue
         verdict, m = cx.check_clause(rep, f"{name}:{cl}", pc, g, tier, engine="E3", sample=(f"pc={pc} |- {z3.simplify(g)}"[:400] if len(rep.samples) < 5 else None))
         if verdict != "proved":
             m = m or cx.path_model(pc)
@@ -217,9 +223,19 @@ def run(rep, tier):
 # structural families: (label, primitive, args spec, kwargs, differentiated argnums)
 #   args spec item: ("A", (dim names...)[, kind]) = array whose dims are the named symbols (an int literal in the tuple = that fixed size),
 #                   ("lit", value) = a literal argument
+UNARY_REAL_AND_COMPLEX = ("exp", "log", "sin", "cos", "tan", "sinh", "cosh", "tanh", "sqrt", "square", "reciprocal", "negative", "abs", "absolute", "real", "imag", "conj", "conjugate", "angle",
+                          "real_if_close")
+UNARY_REAL = ("arcsin", "arccos", "arctan", "arcsinh", "arccosh", "arctanh", "log2", "log10", "log1p", "expm1", "exp2", "sinc", "deg2rad", "rad2deg", "degrees", "radians", "fabs", "nan_to_num", "sign")
+
+
 def _struct_cases(tier):
     C = []
     A = lambda *dims, kind="real": ("A", dims, kind)
+    # element-wise unary rules: the gradient has the argument's shape and kind, the tangent the output's (abs/angle/real/imag of a complex argument are REAL)
+    for nm in UNARY_REAL_AND_COMPLEX + UNARY_REAL:
+        for dims in ((), ("n",), ("n", "m")) + ((("b", "n", "m"),) if tier == "thorough" else ()):
+            for kind in (("real", "complex") if nm in UNARY_REAL_AND_COMPLEX else ("real",)):
+                C.append((f"{nm}{dims}|{kind}", nm, [A(*dims, kind=kind)], {}, (0,)))
     for sa, sb in ((("k",), ("k",)), (("k",), ("k", "m")), (("n", "k"), ("k",)), (("n", "k"), ("k", "m")), (("b", "n", "k"), ("k", "m")), (("n", "k"), ("b", "k", "m")),
                    (("b", "n", "k"), ("b", "k", "m")), (("b", "n", "k"), ("k",)), (("k",), ("b", "k", "m")), ((1, "n", "k"), ("b", "k", "m")), (("c", 1, "n", "k"), ("b", "k", "m"))):
         C.append((f"matmul{sa}x{sb}", "matmul", [A(*sa), A(*sb)], {}, (0, 1)))
@@ -243,6 +259,24 @@ def _struct_cases(tier):
     for sub, shapes in (("ij,ij->ij", [("i", "j"), ("i2", "j")]), ("ij,ij->ij", [("i", "j"), ("i", "j2")]), ("...ij,...jk->...ik", [("b", "i", "j"), ("b2", "j", "k")]),
                         ("i,i->i", [("i",), ("i2",)]), ("ij,jk->ik", [("i", "j"), ("j2", "k")])):
         C.append((f"einsum('{sub}' bcast){shapes}", "einsum", [("lit", sub)] + [A(*sh) for sh in shapes], {}, tuple(range(1, len(shapes) + 1))))
+    # diag / trace / full / linspace / kron / diff / cross
+    for k in (0, 1, -1, 2):
+        C.append((f"diag(1-D,k={k})", "diag", [A("n")], {"k": k}, (0,)))
+        C.append((f"diag(2-D,k={k})", "diag", [A("n", "m")], {"k": k}, (0,)))
+        C.append((f"diag(square,k={k})", "diag", [A("n", "n")], {"k": k}, (0,)))
+    for off in (0, 1, -1):
+        C.append((f"trace(offset={off})", "trace", [A("n", "m")], {"offset": off}, (0,)))
+        C.append((f"trace(3-D,offset={off})", "trace", [A("n", "m", "c")], {"offset": off}, (0,)))
+    for fdims in ((), ("m",), (1, "m"), ("n", 1)):
+        C.append((f"full((n,m), fill{fdims})", "full", [("shape", ("n", "m")), A(*fdims)], {}, (1,)))
+    C.append(("linspace(scalars)", "linspace", [A(), A(), ("lit", 5)], {}, (0, 1)))
+    C.append(("linspace(arrays)", "linspace", [A("n"), A("n"), ("lit", 4)], {}, (0, 1)))
+    for sa, sb in ((("n",), ("m",)), (("n", "k"), ("m", "l")), (("n",), ("m", "l")), (("n", "k"), ("m",)), ((), ("m",)), (("n", "k"), ())):
+        C.append((f"kron{sa}x{sb}", "kron", [A(*sa), A(*sb)], {}, (0, 1)))
+    for n_, ax, dims in ((1, -1, ("n",)), (2, -1, ("n",)), (1, 0, ("n", "m")), (1, 1, ("n", "m")), (2, 0, ("n", "m")), (3, -1, ("n", "m"))):
+        C.append((f"diff(n={n_},axis={ax}){dims}", "diff", [A(*dims)], {"n": n_, "axis": ax}, (0,)))
+    for sa, sb in (((3,), (3,)), (("n", 3), ("n", 3)), (("n", 3), (3,)), ((3,), ("n", 3)), ((1, 3), ("n", 3)), (("b", "n", 3), ("n", 3))):
+        C.append((f"cross{sa}x{sb}", "cross", [A(*sa), A(*sb)], {}, (0, 1)))
     for lab, spec_ in (("list-form", [A("i", "j"), ("lit", [0, 1]), A("j", "k"), ("lit", [1, 2]), ("lit", [0, 2])]),
                        ("list-form ellipsis-mid", [A("i", "c", "j"), ("lit", [0, Ellipsis, 1]), A("j", "k"), ("lit", [1, 2]), ("lit", [0, Ellipsis, 2])]),
                        ("list-form ellipsis-mid bcast", [A("i", "j"), ("lit", [0, Ellipsis, 1]), A("i", "c", "j"), ("lit", [0, Ellipsis, 1]), ("lit", [0, Ellipsis])]),
